@@ -122,10 +122,12 @@ PROPS["C06"] = {
     "quick": [H("ZZ_C06_History", params={"N": 2}, reach=["history-done", "set-true", "set-false"], bounds="N=2 calls, cap 3, doorkeeper off"),
               H("ZZ_C06_History", params={"N": 2, "DOOR": 1}, reach=["history-done", "set-false"], bounds="N=2 calls, cap 3, doorkeeper on"),
               H("ZZ_C06_ExpiredUpdate", reach=["second-set"]),
+              H("ZZ_C06_Doorkeeper", reach=["three-sets", "first-sight-rejected"], bounds="arbitrary doorkeeper reset counter and filter contents (inductive state), one key offered three times"),
               H("ZZ_C06_Loader", reach=["loaded"], bounds="loader cost 1..cap+5")],
     "thorough": [H("ZZ_C06_History", params={"N": 3}, reach=["history-done", "set-true", "set-false"], bounds="N=3 calls, cap 3, doorkeeper off"),
                  H("ZZ_C06_History", params={"N": 3, "DOOR": 1}, reach=["history-done", "set-false"], bounds="N=3 calls, cap 3, doorkeeper on"),
                  H("ZZ_C06_ExpiredUpdate", reach=["second-set"]),
+                 H("ZZ_C06_Doorkeeper", reach=["three-sets", "first-sight-rejected"]),
                  H("ZZ_C06_Loader", reach=["loaded"])],
 }
 
@@ -166,6 +168,99 @@ PROPS["C10"] = {
     "outside_bound": ["hybrid cache Close paths (theine package wrappers)", "more than one writer", "preemption bound above 1"],
     "quick": _c10(0),
     "thorough": _c10(1),
+}
+
+PROPS["C01"] = {
+    "title": "linearizable map",
+    "technique": "SSA symbolic execution with controlled threads of the real Store API (Set/Get/Delete/Range, loading Get); exhaustive schedule exploration within a preemption bound; linearizability oracle (search over linearizations) in the harness; RBMutex protocol at atomic granularity",
+    "level_text": "Bounded model checking over schedules and operation choices: two clients each issue OPS real calls chosen from Set k1 / Set k2 / Get k1 / Delete k1 / Range (/ loading Get) on a capacity-1 cache, every write with a distinct value tag; every interleaving at synchronisation granularity within the preemption bound runs on the real code with the real maintenance goroutine; the harness then searches for a linearization (map that may drop keys) explaining every hit. The reader-biased lock itself is checked separately at the granularity of its atomic operations (1 writer, 2 readers, mutual exclusion).",
+    "level_note": _thr_note + "Store-level runs use the ideal reader/writer lock in place of RBMutex (whose own protocol is the second harness). Bounds: 2 clients x 2 ops, preemption bound 0 (quick) / 1 (thorough); plain, loading, entry-pool and doorkeeper configurations.",
+    "assumptions": ["switching only at synchronisation operations is sound for data-race-free code (race freedom under the same bounds is C19's subject)"],
+    "outside_bound": ["more than 2 clients or 2 operations each", "preemption bound above 1 (RBMutex harness: 2)", "timer ticks during the history"],
+    "quick": [H("ZZ_C01_Linearizable", params={"PRE": 0}, reach=["history-complete"], bounds="2x2 ops, cap 1, preemptions 0"),
+              H("ZZ_C01_Linearizable", params={"PRE": 0, "POOL": 1}, reach=["history-complete"], bounds="entry pool on"),
+              H("ZZ_C01_Linearizable", params={"PRE": 0, "LOADING": 1}, reach=["history-complete"], bounds="loading cache"),
+              H("ZZ_C01_Linearizable", params={"PRE": 0, "DOOR": 1}, reach=["history-complete"], bounds="doorkeeper on"),
+              H("ZZ_C01_RBMutex", params={"READERS": 2, "PRE": 2}, reach=["all-done"], bounds="1 writer, 2 readers, atomic granularity, preemptions 2")],
+    "thorough": [H("ZZ_C01_Linearizable", params={"PRE": 1}, reach=["history-complete"], bounds="2x2 ops, cap 1, preemptions 1"),
+                 H("ZZ_C01_Linearizable", params={"PRE": 0, "POOL": 1, "POOLMODE": 2}, reach=["history-complete"], bounds="entry pool on, adversarial reuse"),
+                 H("ZZ_C01_Linearizable", params={"PRE": 0, "LOADING": 1}, reach=["history-complete"]),
+                 H("ZZ_C01_Linearizable", params={"PRE": 0, "DOOR": 1}, reach=["history-complete"]),
+                 H("ZZ_C01_Linearizable", params={"PRE": 0, "CAP": 2}, reach=["history-complete"]),
+                 H("ZZ_C01_RBMutex", params={"READERS": 2, "PRE": 3}, reach=["all-done"])],
+}
+
+PROPS["C02"] = {
+    "title": "resident cost within MaxSize after drain; nothing untracked",
+    "technique": "SSA symbolic execution with controlled threads of two-client programs on the real Store (symbolic costs), then Wait and accounting invariants decided by z3; sync/atomic operations as scheduling points for the expiry window",
+    "level_text": "Bounded model checking: two clients x OPS operations (Set k1 / Set k2 with symbolic costs 1..MaxSize, Delete, Get) in every interleaving within the preemption bound; after Wait the harness asserts, for all cost values, resident cost = policy total = sum of region sizes <= MaxSize, every resident entry on exactly one region list with policy weight = weight and not flagged removed, and Len/EstimatedSize views. A second program places a TTL extension at every atomic step of the expiry path (no source hook needed: the executor schedules at sync/atomic operations).",
+    "level_note": _thr_note + "Entry pool off (as the property states). The in-flight bound on unaccounted entries is not asserted (only the post-drain clauses). Known finding: removed flag set before the deadline re-check (ZZ_C02_ExpiryWindow; every assertion of that program is attributed to it).",
+    "assumptions": ["MaxSize 2, two keys"],
+    "outside_bound": ["bound on unaccounted entries while writes are in flight", "more than 2 clients / 2 ops", "preemption bound above 1"],
+    "quick": [H("ZZ_C02_Program", params={"PRE": 0}, reach=["drained"], bounds="2 clients x 2 ops, cap 2, preemptions 0, costs symbolic"),
+              H("ZZ_C02_ExpiryWindow", params={"PRE": 1}, reach=["settled"], bounds="TTL extension vs expiry path at atomic granularity, preemptions 1")],
+    "thorough": [H("ZZ_C02_Program", params={"PRE": 1}, reach=["drained"], bounds="2 clients x 2 ops, cap 2, preemptions 1"),
+                 H("ZZ_C02_Program", params={"PRE": 0, "CAP": 3}, reach=["drained"]),
+                 H("ZZ_C02_ExpiryWindow", params={"PRE": 2}, reach=["settled"])],
+}
+
+PROPS["C05"] = {
+    "title": "exactly one removal notification, true reason",
+    "technique": "SSA symbolic execution with controlled threads: Delete, capacity eviction and expiry of the same entry overlapped in every schedule within the preemption bound; notification ledger oracle",
+    "level_text": "Bounded model checking over schedules of the real Store with a removal listener: Delete vs eviction, Delete vs expiry, eviction vs expiry (with a value update before departure), rejected Sets; after drain each departed entry must have exactly one notification with its key, the value held at departure and a reason consistent with how it left, and stored = resident + notified.",
+    "level_note": _thr_note + "Scenario programs (not arbitrary histories); entry pool off and on. Known finding: a deleted entry that is evicted or expires before its REMOVE event is processed is never notified.",
+    "assumptions": ["scripted overlap scenarios on capacity 1 and 10"],
+    "outside_bound": ["arbitrary operation histories", "preemption bound above 1 (thorough 2)"],
+    "quick": [H("ZZ_C05_DeleteVsEvict", params={"PRE": 1}, reach=["drained"]), H("ZZ_C05_DeleteVsEvict", params={"PRE": 1, "POOL": 1}, reach=["drained"]),
+              H("ZZ_C05_DeleteVsExpire", params={"PRE": 1}, reach=["drained"]), H("ZZ_C05_EvictVsExpire", params={"PRE": 1}, reach=["drained"]),
+              H("ZZ_C05_Rejected", reach=["drained", "doorkeeper-rejected"])],
+    "thorough": [H("ZZ_C05_DeleteVsEvict", params={"PRE": 2}, reach=["drained"]), H("ZZ_C05_DeleteVsEvict", params={"PRE": 2, "POOL": 1}, reach=["drained"]),
+                 H("ZZ_C05_DeleteVsExpire", params={"PRE": 2}, reach=["drained"]), H("ZZ_C05_EvictVsExpire", params={"PRE": 2}, reach=["drained"]),
+                 H("ZZ_C05_Rejected", reach=["drained", "doorkeeper-rejected"])],
+}
+
+PROPS["C08"] = {
+    "title": "lossy read buffer neither invents nor wedges",
+    "technique": "SSA symbolic execution of Buffer.Add/Free: call-granularity late hand-back sequences and two readers interleaved at the granularity of individual sync/atomic operations (all schedules within the preemption bound); Store-level stall behind the policy lock",
+    "level_text": "Bounded model checking of the real ring buffer: (a) every number 0..17 of Adds while the batch token is out, then a late Free, then 33 further Adds must deliver a batch; (b) two readers racing on a stripe holding 14 or 15 items, and a late Free racing a reader, with a scheduling point before every atomic operation; every delivered item was added and is delivered once; afterwards the stripe still delivers; (c) at Store level a drain stalled behind the policy lock, then hits must reach the policy again.",
+    "level_note": _thr_note + "One stripe; 2 threads at atomic granularity, <=3 Adds each, preemption bound 2 (thorough 3).",
+    "assumptions": ["Clear() (test-only) not exercised"],
+    "outside_bound": ["more than 2 concurrent readers at atomic granularity", "preemption bound above 3"],
+    "quick": [H("ZZ_C08_LateFree", reach=["late-free-done"]), H("ZZ_C08_Atomic", params={"N0": 14, "ADDS": 1, "PRE": 2}, reach=["burst-over"]),
+              H("ZZ_C08_Atomic", params={"N0": 15, "ADDS": 1, "PRE": 2}, reach=["burst-over"]),
+              H("ZZ_C08_AtomicLate", params={"J": 15, "ADDS": 2, "PRE": 2}, reach=["burst-over"]),
+              H("ZZ_C08_Store", reach=["stall-over"])],
+    "thorough": [H("ZZ_C08_LateFree", reach=["late-free-done"]), H("ZZ_C08_Atomic", params={"N0": 14, "ADDS": 2, "PRE": 3}, reach=["burst-over"]),
+                 H("ZZ_C08_Atomic", params={"N0": 15, "ADDS": 2, "PRE": 2}, reach=["burst-over"]),
+                 H("ZZ_C08_AtomicLate", params={"J": 15, "ADDS": 2, "PRE": 3}, reach=["burst-over"]),
+                 H("ZZ_C08_AtomicLate", params={"J": 14, "ADDS": 3, "PRE": 2}, reach=["burst-over"]),
+                 H("ZZ_C08_AtomicLate", params={"J": 16, "ADDS": 1, "PRE": 3}, reach=["burst-over"]),
+                 H("ZZ_C08_Store", reach=["stall-over"])],
+}
+
+PROPS["C13"] = {
+    "title": "loading cache: one load in flight, shared result, failures not cached",
+    "technique": "SSA symbolic execution with controlled threads, defer/panic/recover/Goexit semantics, of the real singleflight Group.Do/doCall and LoadingStore.Get with loaders that succeed, fail, panic or call runtime.Goexit; all schedules within the preemption bound",
+    "level_text": "Bounded model checking over schedules: N callers of one key run the real Group.Do (and the real LoadingStore.Get on top of it) with a loader that yields and then returns a value, returns an error, panics or calls Goexit; asserted: never two loader invocations running, every caller receives an invocation's value / the error / the panic / the Goexit, nothing stays in flight, the shard is usable, a failure is not cached (the next Get loads again), a success is stored with the loader's cost and TTL exactly as Set would and is accounted by the policy.",
+    "level_note": _thr_note + "2 callers (thorough 3), preemption bound 1; call-record pool LIFO (thorough: adversarial choice). Interleaved Set/Delete on the loading key is not in the programs.",
+    "assumptions": ["loader yields once (slow loader) and is otherwise atomic"],
+    "outside_bound": ["more than 3 callers", "Set/Delete on the key during the load", "nested loads"],
+    "quick": [H("ZZ_C13_Group", params={"CALLERS": 2, "PRE": 1}, reach=["all-callers-finished"]), H("ZZ_C13_Loading", params={"CALLERS": 2, "PRE": 1}, reach=["all-callers-finished"])],
+    "thorough": [H("ZZ_C13_Group", params={"CALLERS": 3, "PRE": 1, "POOLMODE": 2}, reach=["all-callers-finished"]), H("ZZ_C13_Group", params={"CALLERS": 2, "PRE": 2}, reach=["all-callers-finished"]),
+                 H("ZZ_C13_Loading", params={"CALLERS": 3, "PRE": 1}, reach=["all-callers-finished"])],
+}
+
+PROPS["C16"] = {
+    "title": "counters and size views",
+    "technique": "SSA symbolic execution: path-wise counting on the real Get / loading Get with symbolic clocks (z3), striped counter at atomic granularity, post-drain views",
+    "level_text": "Bounded model checking: (a) for every set time, TTL, read time and cached-clock reading, one real Get or loading Get moves exactly one of hits/misses and hits exactly when a cached value was returned (so the totals over any finished history follow by induction over calls); (b) two concurrent UnsignedCounter.Add calls at atomic granularity never lose an increment; (c) after drain Len, EstimatedSize and Range agree with the resident set, Range visits every live key once with its current value, skips expired ones and stops when told.",
+    "level_note": _thr_note + "Counts are asserted per call (single client) plus the counter's atomicity; concurrent whole-history counting follows from those two, it is not explored as one program.",
+    "assumptions": ["hybrid Get is outside the property (stats are in-memory only)"],
+    "outside_bound": ["more than 2 concurrent counter updates"],
+    "quick": [H("ZZ_C16_GetCounts", reach=["get-done"]), H("ZZ_C16_GetCounts", params={"LOADING": 1}, reach=["get-done"]),
+              H("ZZ_C16_Counter", params={"PRE": 2}, reach=["adds-done"]), H("ZZ_C16_Views", reach=["views-done"])],
+    "thorough": [H("ZZ_C16_GetCounts", reach=["get-done"]), H("ZZ_C16_GetCounts", params={"LOADING": 1}, reach=["get-done"]),
+                 H("ZZ_C16_Counter", params={"PRE": 4, "POOLMODE": 2}, reach=["adds-done"]), H("ZZ_C16_Views", params={"N": 5}, reach=["views-done"])],
 }
 
 NOT_APPLICABLE = [
